@@ -1,6 +1,14 @@
 import Xrl.Lemmas.Tactics
 import Xrl.Spec.Lookup
-import Xrl.Gen.Fns
+import Xrl.Gen.F_atomicweight
+import Xrl.Gen.F_densities
+import Xrl.Gen.F_edges
+import Xrl.Gen.F_fluor_yield
+import Xrl.Gen.F_jump
+import Xrl.Gen.F_atomiclevelwidth
+import Xrl.Gen.F_coskron
+import Xrl.Gen.F_kissel_pe
+import Xrl.Gen.F_auger_trans
 /-!
 # C01 — scalar lookups return exactly the shipped table value, or an error
 
